@@ -30,7 +30,7 @@ MANIFEST = {
     "note": "Trusted: the EBNF interpreter (self-tested on frozen examples at start-up) and the denotation layer. Bounds: numerals <= 40 digits, formula atom total <= 6000 (CPython int/ memory limits).",
     "technique": "property-based differential testing vs a reference reader built from the published EBNF (Hypothesis, 16 shards) + Atheris coverage-guided fuzzing in the thorough tier",
 }
-FUZZ = {"procs": 12, "runs": 60000, "timeout": 3000}
+FUZZ = {"procs": 12, "runs": 60000, "timeout": 1500}
 ASSUMPTIONS = [
     "character-level CFG semantics of the EBNF equal ANTLR token-level semantics for this grammar (argued in vlib/refgrammar.py)",
     "numerals <= 40 digits and sum of formula counts <= 6000 (CPython / memory limits)",
